@@ -315,9 +315,10 @@ def cmd_check(pid, tier, seed):
     }
     ev = {'property_id': pid, 'tier': tier, 'seed': seed, 'level': level, 'coverage': cov,
           'assumptions': sorted(assumptions), 'wall_s': round(wall, 1), 'violations': len(vio_lines)}
-    os.makedirs(os.path.join(VERIF, 'evidence'), exist_ok=True)
+    evdir = os.environ.get('VERIF_EVIDENCE_DIR') or os.path.join(VERIF, 'evidence')    # (redirected only by the seeded-change tests)
+    os.makedirs(evdir, exist_ok=True)
     if not only:
-        json.dump(ev, open(os.path.join(VERIF, 'evidence', pid + '.json'), 'w'), indent=1)
+        json.dump(ev, open(os.path.join(evdir, pid + '.json'), 'w'), indent=1)
     for l in vio_lines:
         print(l)
     print('property=%s tier=%s named_obligations=%d cbmc_properties=%d discharged=%d undecided=%d known=%d violations=%d wall=%.0fs'
